@@ -82,6 +82,9 @@ class Inventory(asset.Inventory):
             raise OSError('injected transient inventory storage error')
         return self._content[application]
 
+    def deploy(self, descriptor: appmod.Descriptor) -> None:
+        self._content[descriptor.name] = descriptor
+
     def put(self, descriptor: appmod.Descriptor.Handle) -> None:
         self._content[descriptor.descriptor.name] = descriptor.descriptor
 
